@@ -472,7 +472,18 @@ class World20:
         if not self.violations:
             self.violations.append(dict(clause=clause, t=round(self.now, 4), **kw))
 
-    def check_kernel(self, where):
+    def apply_kset(self, ks):
+        i, j = ks['mv'], ks['pos']
+        cont = self.containers[i]
+        k = self.keys0[i][j]
+        cont[j] = ks['val']
+        self.model[i][k] = cont[j]          # an ndarray hands back its own kind of number object
+        self.kdirty = True
+        self.stats['ksets'] = self.stats.get('ksets', 0) + 1
+        if ks.get('after_report'):
+            self.stats['ksets_after_report'] = self.stats.get('ksets_after_report', 0) + 1
+
+    def check_kernel(self, where, w3_only=False):
         self.stats['checks'] += 1
         # the scene as it should be rendered now; a user callable may fail for the current positions
         try:
@@ -506,6 +517,8 @@ class World20:
                 if not _num_eq(got, exp):
                     self.violate('W3-coefficients', where=where, mv=i, blade=k, expected=_show(exp), got=_show(got))
                     return
+        if w3_only:
+            return
         # W1: what the kernel would send now, decoded the way the front end decodes it
         fe = FrontEnd(self)
         fe.float32 = False
@@ -650,6 +663,12 @@ class World20:
         self.fe = FrontEnd(self)
         for d in self.cfg.get('drags', []):
             self.schedule(d['t'], 'drag', d)
+        # kernel-side changes: the user's own code assigns a coefficient of a scene multivector in place; the next
+        # update_mvs request of an animated scene must publish it.  `after_report` places the change right after
+        # the next delivered drag report (between a report and the frame's update request).
+        self.armed, self.kdirty = [], False
+        for ks in self.cfg.get('ksets', []):
+            self.schedule(ks['t'], 'kset', ks)
         horizon = self.cfg.get('horizon', 2.0)
         last_drag = max([d['t'] for d in self.cfg.get('drags', [])] or [0.0])
         events = 0
@@ -676,11 +695,33 @@ class World20:
                     self.stats['reports_delivered'] += 1
                     if saw < self.subjects_version_sent:
                         self.stats['stale_reports'] += 1
-                    self.apply_report_to_model(payload['content']['data']['state']['draggable_points'])
+                    pts = payload['content']['data']['state']['draggable_points']
+                    # traitlets notifies the observer only when the reported value differs from the trait's current
+                    # value: a duplicate report writes nothing (visible once the kernel side changed in between)
+                    try:
+                        same = bool(self.widget.draggable_points == pts)
+                    except Exception:
+                        same = False
+                    if same:
+                        self.stats['reports_unchanged'] = self.stats.get('reports_unchanged', 0) + 1
+                    else:
+                        self.apply_report_to_model(pts)
                 else:
                     self.stats['f2k_tick'] += 1
+                    self.kdirty = False         # an update request re-evaluates the whole scene
                 self.widget._handle_msg(payload)
-                self.check_kernel(f'after delivering {k} at t={t:.4f}')
+                # between a kernel-side change and the next update request only the write-back is judged: a
+                # report that does not differ from the previous one re-encodes nothing
+                self.check_kernel(f'after delivering {k} at t={t:.4f}', w3_only=self.kdirty)
+                if k == 'report' and self.armed:
+                    for ks in self.armed:
+                        self.apply_kset(ks)
+                    self.armed = []
+            elif kind == 'kset':
+                if payload.get('after_report'):
+                    self.armed.append(payload)
+                else:
+                    self.apply_kset(payload)
             elif kind == 'frame':
                 self.stats['frames'] += 1
                 self.fe.frame()
